@@ -87,9 +87,22 @@ SHAPES = {  # which candidate sources are available
 }
 RULE_COUNTS = [(0, 0), (1, 0), (0, 1), (1, 1), (2, 0), (0, 2)]
 
-IGN_CANDS = [dict(a_host=a, p_host=p, host_header=h, hello_sni=s, client_sni=s2, allow0=r1, allow1="nomatch\\.invalid", ignore0=r2, ignore1="nomatch\\.invalid")
-             for a, p, h, s, s2 in (("example.com", "93.184.216.34", "Example.COM", "sni.example.com", "sni.example.com"), ("10.0.0.1", "10.0.0.1", "other.org:8080", "other.org", "x.org"))
-             for r1 in (r"example\.com", r"^10\.", "nomatch") for r2 in (r"example\.com:\d+$", r"other", "nomatch")]
+def _ign_cands():
+    """joint assignments for replayable counter-models: exactly one destination source carries the text `target`"""
+    out = []
+    srcs = ["a_host", "p_host", "host_header", "hello_sni", "client_sni"]
+    for k in srcs:
+        for tgt in ("target", "target:8080", "TARGET"):
+            if ":" in tgt and k != "host_header":
+                continue
+            base = {x: "other.invalid" for x in srcs}
+            base[k] = tgt
+            for rule in ("target", r"target:\d+$", r"^target$", r"target:8080$"):
+                out.append(dict(base, a_port=80, p_port=443, allow0=rule, allow1=r"nomatch\.invalid", ignore0=rule, ignore1=r"nomatch\.invalid"))
+    return out
+
+
+IGN_CANDS = _ign_cands()
 
 
 @scenario("_ignore_connection", functions=[NL + "._ignore_connection"], candidates=IGN_CANDS)
@@ -394,8 +407,6 @@ def s_tls_passthrough(vc):
     out = vc.call("mitmproxy.proxy.tunnel:TunnelLayer._handle_event", lyr, ev, on_yield=on_yield)
     vc.ensure("total", out.ok)
     if not out.ok:
-        if __import__("os").environ.get("C19_DEBUG"):
-            print("RAISED", out.raised, getattr(out.raised, "fields", None))
         return
     cmds = [c for c in out.trace if not isinstance(c, (STuple, tuple))]
     kinds = trace_kinds(cmds)
